@@ -322,6 +322,25 @@ def flag(ctx, config="all", files=None):
     return rep
 
 
+_CALLERS = {}
+
+
+def callers_of(prog, key):
+    """Local call sites of a function: [(caller key, block)]."""
+    idx = _CALLERS.get(id(prog))
+    if idx is None:
+        idx = {}
+        for b in prog.fn_bodies():
+            for bi, blk in enumerate(b["blocks"]):
+                t = blk["term"]
+                if t["t"] == "call":
+                    n = ir.callee_name(t["fn"])
+                    if n in prog.bodies:
+                        idx.setdefault(n, []).append((b["key"], bi))
+        _CALLERS[id(prog)] = idx
+    return idx.get(key, [])
+
+
 def lowlimb(ctx, config="all"):
     rep = Report("R-LOWLIMB", "a function that uses a constant-indexed limb of a Uint parameter as a scalar is, on the "
                  "path to its normal return, dominated by a whole-value observer of the same parameter (bit_len, "
@@ -330,128 +349,153 @@ def lowlimb(ctx, config="all"):
     prog = ctx.prog(config)
     table = ctx.table("lowlimb")
     n = 0
-    for b in prog.fn_bodies():
-        if b["kind"] == "Closure" or b["file"].startswith("src/algorithms"):
-            continue
-        if not prog.is_cfg_generic(b):
-            continue
-        # parameters of Uint / &Uint type
-        uparams = [l for l in range(1, b.get("arg_count", 0) + 1)
-                   if ir.is_uint_ty(b["locals"][l]["ty"], True) or (b["locals"][l]["ty"].get("k") == "ref" and
-                                                                   ir.is_uint_ty(b["locals"][l]["ty"]["t"], True))]
-        if not uparams:
-            continue
-        out_t = b.get("output", {})
-        if ir.ty_contains(out_t, lambda t: ir.is_uint_ty(t, True)) and b["name"] not in ("shl", "shr", "pow"):
-            # functions that rebuild a Uint limb by limb read every limb: not truncating reads
-            continue
-        v = prog.view(b, (129, 3))
-        sites = []
-        for bi in sorted(v.reachable):
-            blk = v.blocks[bi]
-            for s in blk["stmts"]:
-                if s["s"] != "assign":
-                    continue
-                for o in ir.operands_of_rvalue(s["rv"]):
-                    if o.get("o") in ("copy", "move") and o["l"] in uparams:
-                        lp = limb_proj(v, o)
-                        if lp and len(lp[2]) == 1:
-                            e = lp[2][0]
-                            idx = None
-                            if e[0] == "cidx" and not e[2]:
-                                idx = e[1]
-                            elif e[0] == "idx":
-                                idx = v.const_of_local(e[1])
-                            if idx is not None and idx <= 1:
-                                sites.append((bi, o["l"], idx, s["pl"]["l"]))
-            t = blk["term"]
-            if t["t"] == "call":
-                nm = ir.callee_name(t["fn"]) or ""
-                # as_limbs()[c] / .first()
-                if nm.endswith("::as_limbs") and t["args"] and t["args"][0].get("o") in ("copy", "move"):
-                    root = total.Totality._value_root(None, v, t["args"][0])
-                    if root in uparams:
-                        # how is the returned array reference used?  constant index
-                        d = t["dest"]["l"]
-                        for bj in v.reachable:
-                            for s in v.blocks[bj]["stmts"]:
-                                if s["s"] == "assign":
-                                    for o in ir.operands_of_rvalue(s["rv"]):
-                                        if o.get("o") in ("copy", "move") and o["l"] == d and len(o["p"]) == 2 and o["p"][0] == "deref":
-                                            e = o["p"][1]
-                                            idx = e[1] if (e[0] == "cidx" and not e[2]) else (v.const_of_local(e[1]) if e[0] == "idx" else None)
-                                            if idx is not None and idx <= 1:
-                                                sites.append((bj, root, idx, s["pl"]["l"]))
-        if not sites:
-            continue
-        # is the whole array read (every index 0..LIMBS-1)?  then reads are not truncating
-        def observer_at(blk, p):
-            for d in v.dom.get(blk, ()):
-                t = v.blocks[d]["term"]
-                if t["t"] != "switch":
-                    continue
-                dd = t["discr"]
-                if not (dd.get("o") in ("copy", "move") and not dd["p"]):
-                    continue
-                sl = BwdCalls(v)
-                sl.local(dd["l"])
-                for cn, args in sl.calls:
-                    if any(cn.endswith(w) or w in cn for w in WHOLE_VALUE_OBSERVERS):
-                        roots = {total.Totality._value_root(None, v, a) for a in args}
-                        if p in roots:
-                            return "a branch on %s(param)" % cn.split("::")[-1]
-                # the condition reads the parameter's limb array as a whole (or a non-constant part of it, e.g.
-                # limbs[1..].iter().any(..)): the other limbs are observed
-                for al, proj in sl.arg_places:
-                    if al == p and not any(e[0] in ("cidx", "idx") for e in proj if isinstance(e, (list, tuple))) and sl.calls:
-                        return "a branch whose condition reads the whole limb array of the parameter"
-            return None
+    # A PRIVATE helper that returns low limbs as a scalar (`fn low_u128(&self) -> u128`) truncates by definition; the
+    # obligation moves to its callers, where the call is a low-limb read of the argument.  Pass 1 finds such helpers
+    # (private, with an unguarded read), pass 2 reports.
+    helpers = {}
+    for final in (False, True):
+      if final:
+          rep.obligations[:] = []
+          n = 0
+      for b in prog.fn_bodies():
+          if b["kind"] == "Closure" or b["file"].startswith("src/algorithms"):
+              continue
+          if not prog.is_cfg_generic(b):
+              continue
+          # parameters of Uint / &Uint type
+          uparams = [l for l in range(1, b.get("arg_count", 0) + 1)
+                     if ir.is_uint_ty(b["locals"][l]["ty"], True) or (b["locals"][l]["ty"].get("k") == "ref" and
+                                                                     ir.is_uint_ty(b["locals"][l]["ty"]["t"], True))]
+          if not uparams:
+              continue
+          out_t = b.get("output", {})
+          if ir.ty_contains(out_t, lambda t: ir.is_uint_ty(t, True)) and b["name"] not in ("shl", "shr", "pow"):
+              # functions that rebuild a Uint limb by limb read every limb: not truncating reads
+              continue
+          v = prog.view(b, (129, 3))
+          sites = []
+          for bi in sorted(v.reachable):
+              blk = v.blocks[bi]
+              for s in blk["stmts"]:
+                  if s["s"] != "assign":
+                      continue
+                  for o in ir.operands_of_rvalue(s["rv"]):
+                      if o.get("o") in ("copy", "move") and o["l"] in uparams:
+                          lp = limb_proj(v, o)
+                          if lp and len(lp[2]) == 1:
+                              e = lp[2][0]
+                              idx = None
+                              if e[0] == "cidx" and not e[2]:
+                                  idx = e[1]
+                              elif e[0] == "idx":
+                                  idx = v.const_of_local(e[1])
+                              if idx is not None and idx <= 1:
+                                  sites.append((bi, o["l"], idx, s["pl"]["l"]))
+              t = blk["term"]
+              if t["t"] == "call":
+                  nm = ir.callee_name(t["fn"]) or ""
+                  # as_limbs()[c] / .first()
+                  if nm.endswith("::as_limbs") and t["args"] and t["args"][0].get("o") in ("copy", "move"):
+                      root = total.Totality._value_root(None, v, t["args"][0])
+                      if root in uparams:
+                          # how is the returned array reference used?  constant index
+                          d = t["dest"]["l"]
+                          for bj in v.reachable:
+                              for s in v.blocks[bj]["stmts"]:
+                                  if s["s"] == "assign":
+                                      for o in ir.operands_of_rvalue(s["rv"]):
+                                          if o.get("o") in ("copy", "move") and o["l"] == d and len(o["p"]) == 2 and o["p"][0] == "deref":
+                                              e = o["p"][1]
+                                              idx = e[1] if (e[0] == "cidx" and not e[2]) else (v.const_of_local(e[1]) if e[0] == "idx" else None)
+                                              if idx is not None and idx <= 1:
+                                                  sites.append((bj, root, idx, s["pl"]["l"]))
+          # calls of a truncating private helper: the result is a low-limb read of the argument
+          for bi in sorted(v.reachable):
+              t = v.blocks[bi]["term"]
+              if t["t"] != "call":
+                  continue
+              hk = ir.callee_name(t["fn"])
+              if hk in helpers and hk != b["key"]:
+                  for ai_, idx_ in helpers[hk]:
+                      if ai_ - 1 < len(t["args"]) and t["args"][ai_ - 1].get("o") in ("copy", "move"):
+                          root = total.Totality._value_root(None, v, t["args"][ai_ - 1])
+                          if root in uparams:
+                              sites.append((bi, root, idx_, t["dest"]["l"]))
+          if not sites:
+              continue
+          # is the whole array read (every index 0..LIMBS-1)?  then reads are not truncating
+          def observer_at(blk, p):
+              for d in v.dom.get(blk, ()):
+                  t = v.blocks[d]["term"]
+                  if t["t"] != "switch":
+                      continue
+                  dd = t["discr"]
+                  if not (dd.get("o") in ("copy", "move") and not dd["p"]):
+                      continue
+                  sl = BwdCalls(v)
+                  sl.local(dd["l"])
+                  for cn, args in sl.calls:
+                      if any(cn.endswith(w) or w in cn for w in WHOLE_VALUE_OBSERVERS):
+                          roots = {total.Totality._value_root(None, v, a) for a in args}
+                          if p in roots:
+                              return "a branch on %s(param)" % cn.split("::")[-1]
+                  # the condition reads the parameter's limb array as a whole (or a non-constant part of it, e.g.
+                  # limbs[1..].iter().any(..)): the other limbs are observed
+                  for al, proj in sl.arg_places:
+                      if al == p and not any(e[0] in ("cidx", "idx") for e in proj if isinstance(e, (list, tuple))) and sl.calls:
+                          return "a branch whose condition reads the whole limb array of the parameter"
+              return None
 
-        for bi, p, idx, dest in sorted(set(sites)):
-            n += 1
-            key = "%s|limbs[%d]" % (b["key"].replace("crate::", ""), idx)
-            where = v.where(bi)
-            row = next((r for r in table.get(b["key"], []) if r["index"] == idx), None)
-            # guards: dominated by a branch whose condition is a whole-value observer call on the same parameter,
-            # or the block is only reachable in configurations where the read is complete
-            ok = observer_at(bi, p)
-            if ok:
-                ok = "read dominated by " + ok
-            if ok is None:
-                # every place where the read value reaches the return value is dominated by an observer
-                fw = Fwd(v).run({dest})
-                outs = []
-                for bj in sorted(v.reachable):
-                    for s2 in v.blocks[bj]["stmts"]:
-                        if s2["s"] == "assign" and s2["pl"]["l"] == 0 and any(
-                                o.get("o") in ("copy", "move") and o["l"] in fw.tainted for o in ir.operands_of_rvalue(s2["rv"])):
-                            if s2["rv"]["r"] == "agg" and s2["rv"].get("variant") == "Err":
-                                continue  # the failure payload carries the wrapped (low-bits) value by definition
-                            outs.append(bj)
-                    t2 = v.blocks[bj]["term"]
-                    if t2["t"] == "call" and t2["dest"]["l"] == 0 and any(
-                            a.get("o") in ("copy", "move") and a["l"] in fw.tainted for a in t2["args"]):
-                        outs.append(bj)
-                if outs and all(observer_at(bj, p) for bj in outs):
-                    ok = "every use of the read in the returned value is dominated by " + observer_at(outs[0], p)
-                elif not outs and not any(t3["t"] == "call" and any(a.get("o") in ("copy", "move") and a["l"] in fw.tainted
-                                                                    for a in t3["args"])
-                                          for t3 in (v.blocks[bj]["term"] for bj in v.reachable)):
-                    ok = "the read feeds only comparisons / branch conditions, never a returned value or a call"
-            if ok is None:
-                # complete by configuration: unreachable when LIMBS > idx + 1 ?
-                v_big = prog.view(b, (256, 4))
-                v_one = prog.view(b, (64, 1)) if idx == 0 else prog.view(b, (128, 2))
-                if bi not in v_big.reachable and bi not in prog.view(b, (129, 3)).reachable:
-                    ok = "only reachable in configurations where limb %d is the whole value" % idx
-            if ok:
-                rep.ok(key, where, ok)
-            elif row is not None:
-                rep.table(key, where, row["reason"])
-            else:
-                rep.violation(key, where, "%s uses limbs[%d] of a Uint parameter as a scalar without a dominating "
-                              "whole-value check: limbs above it are silently ignored (e.g. a shift amount >= 2^64)" % (
-                                  b["key"].replace("crate::", ""), idx))
+          for bi, p, idx, dest in sorted(set(sites)):
+              n += 1
+              key = "%s|limbs[%d]" % (b["key"].replace("crate::", ""), idx)
+              where = v.where(bi)
+              row = next((r for r in table.get(b["key"], []) if r["index"] == idx), None)
+              # guards: dominated by a branch whose condition is a whole-value observer call on the same parameter,
+              # or the block is only reachable in configurations where the read is complete
+              ok = observer_at(bi, p)
+              if ok:
+                  ok = "read dominated by " + ok
+              if ok is None:
+                  # every place where the read value reaches the return value is dominated by an observer
+                  fw = Fwd(v).run({dest})
+                  outs = []
+                  for bj in sorted(v.reachable):
+                      for s2 in v.blocks[bj]["stmts"]:
+                          if s2["s"] == "assign" and s2["pl"]["l"] == 0 and any(
+                                  o.get("o") in ("copy", "move") and o["l"] in fw.tainted for o in ir.operands_of_rvalue(s2["rv"])):
+                              if s2["rv"]["r"] == "agg" and s2["rv"].get("variant") == "Err":
+                                  continue  # the failure payload carries the wrapped (low-bits) value by definition
+                              outs.append(bj)
+                      t2 = v.blocks[bj]["term"]
+                      if t2["t"] == "call" and t2["dest"]["l"] == 0 and any(
+                              a.get("o") in ("copy", "move") and a["l"] in fw.tainted for a in t2["args"]):
+                          outs.append(bj)
+                  if outs and all(observer_at(bj, p) for bj in outs):
+                      ok = "every use of the read in the returned value is dominated by " + observer_at(outs[0], p)
+                  elif not outs and not any(t3["t"] == "call" and any(a.get("o") in ("copy", "move") and a["l"] in fw.tainted
+                                                                      for a in t3["args"])
+                                            for t3 in (v.blocks[bj]["term"] for bj in v.reachable)):
+                      ok = "the read feeds only comparisons / branch conditions, never a returned value or a call"
+              if ok is None:
+                  # complete by configuration: unreachable when LIMBS > idx + 1 ?
+                  v_big = prog.view(b, (256, 4))
+                  v_one = prog.view(b, (64, 1)) if idx == 0 else prog.view(b, (128, 2))
+                  if bi not in v_big.reachable and bi not in prog.view(b, (129, 3)).reachable:
+                      ok = "only reachable in configurations where limb %d is the whole value" % idx
+              if ok:
+                  rep.ok(key, where, ok)
+              elif row is not None:
+                  rep.table(key, where, row["reason"])
+              elif b.get("vis") != "pub" and not (prog.impl_of(b) or {}).get("trait") and callers_of(prog, b["key"]):
+                  # private helper: truncates by definition, its callers carry the obligation
+                  helpers.setdefault(b["key"], set()).add((p, idx))
+                  rep.ok(key, where, "private helper returning low limbs: the obligation is checked at its %d call site(s)" %
+                         len(callers_of(prog, b["key"])))
+              else:
+                  rep.violation(key, where, "%s uses limbs[%d] of a Uint parameter as a scalar without a dominating "
+                                "whole-value check: limbs above it are silently ignored (e.g. a shift amount >= 2^64)" % (
+                                    b["key"].replace("crate::", ""), idx))
     rep.analysed = {"build_config": config, "low_limb_reads": n}
     rep.floor("low_limb_reads", n, 10)
     return rep
